@@ -377,9 +377,41 @@ def check_rules(ctx, out, expected, replay, script):
     return True
 
 
+def part_tick_zero(ctx):
+    """a tick length of zero (the clock thread does not sleep between ticks)
+    is a tick length like any other: the clock thread lives, ticks, and "a
+    zero delay never blocks".  Scripts without positive delays only -- with a
+    tick of zero virtual time has nothing to advance by."""
+    rng = ctx.rng('tick0', ctx.shard)
+    for k in range(3 if ctx.tier == 'quick' else 40):
+        script = ' '.join(rng.choice([
+            'on all', 'off "A"', 'time 0 set all', 'time 0', 'hue 5 set "A"',
+            'units raw time 0 on all units logical', 'duration 1 set all'])
+            for _ in range(rng.randint(1, 5)))
+        tick = rng.choice([0, 0.0])
+        as_text = rng.random() < 0.3
+        seed = ctx.seed * 7919 + ctx.shard * 101 + k
+        out = run_case(seed, script, tick, 'random', 1, 80000, 1, as_text)
+        replay = {'script': script, 'tick': tick, 'policy': 'random',
+                  'depth': 1, 'seed': seed, 'tick_as_text': as_text}
+        ctx.case('Z:{}:{}'.format(script, out.get('schedule', [])[:40]))
+        fires = sum(1 for e in out['events'] if e[0] == 'fire')
+        if out['deadlock'] or out['thread_exc'] or out['stops']:
+            ctx.violation('tick-0:thread-died-or-stuck', '{} {} {} | {}'.format(
+                str(out['deadlock'])[:120], out['thread_exc'][:1],
+                out['stops'][:1], script), replay)
+        elif not fires:
+            ctx.violation('tick-0:clock-never-ticked',
+                          'no tick was observed | ' + script, replay)
+        else:
+            ctx.count('tick_zero_scenarios')
+            ctx.count('tick_zero_ticks', fires)
+
+
 def run_shard(ctx):
     n = N[ctx.tier]
     locs = {}
+    part_tick_zero(ctx)
     for i in range(ctx.shard, n, ctx.nshards):
         rng = ctx.rng('c10', i)
         script, expected, tick = gen_case(rng)
